@@ -413,7 +413,15 @@ Record lit := mkL { l_z : Z; l_cls : N; l_aux : list N; l_sides : list bool }.
 
 (* a cell card: converted or not (importance 0 cells stay in the cell
    dictionary and their TRCL is applied all the same), with TRCL or not *)
-Record tcell := mkC { tc_id : N; tc_conv : bool; tc_trcl : bool; tc_lits : list lit }.
+(* descriptor of a surface as moved by the TRCL of a cell: classes and sides
+   of its sub-surfaces *)
+Record desc := mkD { d_cls : N; d_aux : list N; d_sides : list bool }.
+
+Record tcell := mkC { tc_id : N; tc_conv : bool; tc_trcl : bool; tc_lits : list lit;
+                      tc_impl : list (N * desc) }.
+(* [tc_impl]: for the surface numbers j that some cell names as 1000 * tc_id + j
+   (MCNP: surface j as transformed by the TRCL of cell tc_id), the descriptor
+   of that transformed surface *)
 
 Definition sign_key (z : Z) (k : N) : Z :=
   if Z.ltb z 0 then Z.opp (Z.of_N k) else Z.of_N k.
@@ -456,6 +464,57 @@ Fixpoint apply_trcls (cs : list tcell) (t : table) (key : N)
         end
   end.
 
+(* construct_volume_t4, first loop: a literal n >= 1000 that is not a surface
+   card stands for surface n mod 1000 as transformed by the TRCL of cell
+   n / 1000; it gets an entry of its own (appended; the boundary flag goes
+   with it) before anything else happens.  The loop runs over a Python set:
+   ascending order is assumed (the correspondence only runs decks where the
+   two orders agree). *)
+Fixpoint find_cell (i : N) (cs : list tcell) : option tcell :=
+  match cs with
+  | [] => None
+  | c :: r => if N.eqb i (tc_id c) then Some c else find_cell i r
+  end.
+
+Fixpoint implicit_pass (cs : list tcell) (ids : list N) (t : table) : res table :=
+  match ids with
+  | [] => Ok t
+  | n :: r =>
+      if N.ltb n 1000 then implicit_pass cs r t
+      else match dict_get n t with
+      | Some _ => implicit_pass cs r t            (* a surface card, or done *)
+      | None =>
+          match find_cell (N.div n 1000) cs with
+          | None => Err EKey                      (* mcnp_dict[cell_id] *)
+          | Some c =>
+              match dict_get (N.modulo n 1000) t with
+              | None => Err EKey                  (* dic_surface_mcnp[surf_id] *)
+              | Some e =>
+                  if negb (tc_trcl c) then        (* no TRCL: an untransformed copy *)
+                    implicit_pass cs r (t ++ [(n, e)])%list
+                  else match dict_get (N.modulo n 1000) (tc_impl c) with
+                  | None => Err EScope            (* no descriptor supplied *)
+                  | Some d =>
+                      implicit_pass cs r
+                        (t ++ [(n, mkE (e_flag e) (e_mcnp e) (d_cls d) (d_aux d)
+                                       (d_sides d))])%list
+                  end
+              end
+          end
+      end
+  end.
+
+Definition implicit_ids (cs : list tcell) : list N :=
+  sort_uniq (flat_map (fun c => map (fun l => Z.abs_N (l_z l)) (tc_lits c)) cs).
+
+(* the surface dictionary and the cells once every copy has been made *)
+Definition expand_table (cs : list tcell) (t : table) : res (list (bool * cell) * table) :=
+  match implicit_pass cs (implicit_ids cs) t with
+  | Err e => Err e
+  | Ok [] => Err EValue                  (* max() of an empty dictionary *)
+  | Ok t1 => apply_trcls cs t1 (N.succ (max_key t1))
+  end.
+
 Definition converted (cells : list (bool * cell)) : list cell :=
   map snd (filter fst cells).
 
@@ -463,9 +522,8 @@ Definition converted (cells : list (bool * cell)) : list cell :=
 Definition run_t (cfg : config) (cards : list scard) (tcells : list tcell) : res output :=
   match parse_cards cards [] with
   | Err e => Err e
-  | Ok [] => Err EValue
   | Ok t =>
-      match apply_trcls tcells t (N.succ (max_key t)) with
+      match expand_table tcells t with
       | Err e => Err e
       | Ok (cells, t') => finish cfg t' (converted cells)
       end
